@@ -37,20 +37,22 @@ struct EcSession {
                         for (auto &c : a)
                                 c = mk == 1 ? (uint8_t) r.u64() : (uint8_t) r.below(3); // incl. 0 and 1 coefficients
                 Slot *sa = g_arena.alloc(a.size(), place, "coeffs", 0, 1);
-                Slot *st = g_arena.alloc((size_t) 32 * k * rows, PLACE_END, "gftbls", fill + 1, 1);
+                // the expanded tables may sit at any address: the API states no alignment for g_tbls (toff = 0 mostly, else 1..31)
+                size_t toff = (size_t) ((uint64_t) plan.geti("toff") % 32);
+                Slot *st = g_arena.alloc((size_t) 32 * k * rows + (toff ? 32 : 0), PLACE_END, "gftbls", fill + 1, 1); // toff != 0: 32 - toff slack bytes follow the table
                 if (!sa || !st)
                         return;
                 memcpy(sa->data, a.data(), a.size());
                 scramble_regs(regs);
-                if (GUARDED(gc, ec_init_tables(k, rows, sa->data, st->data))) {
+                if (GUARDED(gc, ec_init_tables(k, rows, sa->data, st->data + toff))) {
                         report_fault(rr, h, gc.fi, "ec_init_tables");
                         return;
                 }
                 // classic 32-byte tables for gf_vect_mad (documented: tables generated from the coefficients, 32*vec bytes per row)
-                Slot *st32 = g_arena.alloc((size_t) 32 * k * rows, PLACE_END, "gftbls32", fill + 2, 1);
+                Slot *st32 = g_arena.alloc((size_t) 32 * k * rows + (toff ? 32 : 0), PLACE_END, "gftbls32", fill + 2, 1);
                 if (!st32)
                         return;
-                if (GUARDED(gc, ec_init_tables_base(k, rows, sa->data, st32->data))) {
+                if (GUARDED(gc, ec_init_tables_base(k, rows, sa->data, st32->data + toff))) {
                         report_fault(rr, h, gc.fi, "ec_init_tables_base");
                         return;
                 }
@@ -119,13 +121,13 @@ struct EcSession {
                         int how = apply == 2 ? (int) ((delivered + s) & 1) : apply;
                         scramble_regs(regs ? regs + delivered : 0);
                         if (how == 0) {
-                                if (GUARDED(gc, ec_encode_data_update(len, k, rows, s, st->data, src[s]->data, coding))) {
+                                if (GUARDED(gc, ec_encode_data_update(len, k, rows, s, st->data + toff, src[s]->data, coding))) {
                                         report_fault(rr, h, gc.fi, strf("ec_encode_data_update(len %d, k %d, rows %d, vec_i %d)", len, k, rows, s).c_str());
                                         return;
                                 }
                         } else {
                                 for (int j = 0; j < rows; j++)
-                                        if (GUARDED(gc, gf_vect_mad(len, k, s, st32->data + (size_t) 32 * k * j, src[s]->data, par[j]->data))) {
+                                        if (GUARDED(gc, gf_vect_mad(len, k, s, st32->data + toff + (size_t) 32 * k * j, src[s]->data, par[j]->data))) {
                                                 report_fault(rr, h, gc.fi, strf("gf_vect_mad(len %d, vec %d, vec_i %d) row %d", len, k, s, j).c_str());
                                                 return;
                                         }
@@ -184,7 +186,7 @@ struct EcSession {
                         fptr[j] = full[j]->data;
                 }
                 h.calls++;
-                if (GUARDED(gc, ec_encode_data(len, k, rows, st->data, sptr, fptr))) {
+                if (GUARDED(gc, ec_encode_data(len, k, rows, st->data + toff, sptr, fptr))) {
                         report_fault(rr, h, gc.fi, "ec_encode_data");
                         return;
                 }
@@ -225,6 +227,10 @@ static void exec_ec(const Json &plan, RunResult &rr, Hist &h)
 {
         EcSession s(plan, rr, h);
         s.run();
+        // a kernel variant that faults on arguments the other variants handle (a wild or misaligned access that is not an overrun of a
+        // declared buffer) has not "given the same bytes in every variant" either
+        if (rr.violated() && rr.oracle == "C05.stray")
+                rr.alt = "C13";
 }
 
 static Json gen_ec(Rng &r0, const std::string &focus, int tier)
@@ -234,7 +240,7 @@ static Json gen_ec(Rng &r0, const std::string &focus, int tier)
         p.set("prof", "ec").set("focus", focus);
         int k = (int) r.below(32);
         static const int lens[] = { 0, 1, 15, 16, 17, 31, 32, 33, 63, 64, 65, 95, 127, 128, 129, 191, 255, 256, 257, 511, 512, 513, 1000, 4096, 4097 };
-        p.set("k", k).set("rows", (int) r.below(14)).set("len", r.chance(1, 2) ? r.pick(lens) : (int) r.logsize(8999)).set("apply", (int) r.below(3)).set("matrix", (int) r.below(3)).set("s", r.u64() >> 16).set("srcshape", r.chance(1, 2) ? 0 : (int) (1 + r.below(3)));
+        p.set("k", k).set("rows", (int) r.below(14)).set("len", r.chance(1, 2) ? r.pick(lens) : (int) r.logsize(8999)).set("apply", (int) r.below(3)).set("matrix", (int) r.below(3)).set("s", r.u64() >> 16).set("srcshape", r.chance(1, 2) ? 0 : (int) (1 + r.below(3))).set("toff", r.chance(2, 3) ? 0 : (int) (r.chance(1, 2) ? 8 * (1 + r.below(3)) : 1 + r.below(31)));
         // delivery order: a permutation of the sources with duplicate pairs injected
         std::vector<int> order;
         for (int i = 0; i <= k; i++)
